@@ -7,8 +7,12 @@ namespace Drv.C18
 def oraclesOf (l : Line) : SessOracles :=
   { pathMatch := pathMatchOf l, urlParse := urlParseOf l, tokenOf := fun _ => parseToken l }
 
+def keyOptsOf (l : Line) : List Sess.KeyOpt :=
+  (parseOpts l).map fun o => if o.1 == "hint" then Sess.KeyOpt.idTokenHint o.2 else Sess.KeyOpt.accessToken o.2
+
+/-- the provider as the REGENERATED `NewProvider` wiring builds it from the storage-backed key set and the options of the line -/
 def enderOf (l : Line) (termOK : String → String → Bool) : SessionEnder :=
-  Sess.providerEnder 0 (str l "issuer") { idTokenHinKeySet := parseKeySet l "ks." }
+  Sess.constructedEnder 0 (str l "issuer") (parseKeySet l "ks.") (keyOptsOf l) []
     { clients := parseClients l, termOK := termOK, is_CanTerminateSessionFromRequest := bool l "termfromreq" } (str l "default")
 
 def modelReq (l : Line) : Go.R EndSessionReq :=
@@ -21,7 +25,8 @@ def routerOf (l : Line) : Sess.Router := if str l "router" == "legacy" then .leg
     confirmed by running the handler against a storage that allows ONLY that session -/
 def modelString (l : Line) (now : Int) : String :=
   let o := oraclesOf l
-  match Sess.handle (routerOf l) now o (modelReq l) (enderOf l fun _ _ => true) with
+  let tf := bool l "termfail"
+  match Sess.handle (routerOf l) now o (modelReq l) (enderOf l fun _ _ => !tf) with
   | .redirect loc =>
     let sess : Option (String × String) :=
       match modelReq l with
